@@ -51,8 +51,8 @@ type rGroup struct {
 }
 
 type rCB struct {
-	group *rGroup
-	lost  int
+	group  *rGroup
+	lost   int
 	isLost bool
 }
 
